@@ -222,8 +222,6 @@ static File* anyFile() { return sess->f ? sess->f : (File*)sess->t; }
 
 static std::string linesStr(int p)
 {
-	std::string c;
-	if (rawRead(pathOf(p), c) && hasNul(c)) return "err nul";
 	return showLines(TextFile(P(p)).lines());
 }
 
@@ -311,8 +309,6 @@ static std::string step(const Toks& t)
 		}
 		if (op == "rl" && t.size() == 1) {
 			if (!sess->t) return "err kind";
-			std::string c;
-			if (rawRead(*sess->t->path(), c) && hasNul(c)) return "err nul";
 			bool r = sess->t->readLine(sess->line);
 			if ((int)strlen(*sess->line) != sess->line.length()) return "err strlen-mismatch";
 			return b01(r) + " " + showBytes(sess->line) + " " + b01(sess->t->end());
@@ -371,7 +367,6 @@ static std::string step(const Toks& t)
 		if (op == "xlines") return linesStr(0);
 		if (op == "xtext") return showBytes(TextFile(P(0)).text());
 		if (op == "xrl") {
-			if (hasNul(bs)) return "err nul";
 			TextFile tf(P(0), File::READ);
 			if (!tf) return "err open";
 			Array<String> ls;
